@@ -7,13 +7,10 @@
      number (PackInfo.packpositions l.270, Folder._read packed_indices l.388-391,
      read_utf16 l.205-213, SevenZipFile._read_digest py7zr.py l.792-800), the encoded-header
      loop, size of the object graph the parser allocates, dispatcher.
-   Part 2 "Proofs":
-     A  every primitive reader consumes input, hence a repeated reader cannot return more
-        elements than there are bytes (a count larger than the remaining input always fails);
-     B  which sections are therefore immune and which are not: the resource answers
-        (Err EFuel) of Header.parse_header that tiny inputs reach;
-     C  the loops: super-linear step counts; termination of the decompress loops under a
-        progress contract, and non-termination without it.
+   Part 2 "Proofs" (independent of the internals of the header parser): super-linear step counts;
+     termination of the decompress loops under a progress contract, non-termination without it.
+   The proofs about the header parser itself (readers consume, resource answers, size of the
+   object graph) are in CostProofs.v.
    stdlib only; no axioms. *)
 From P7 Require Import Prelude PyPrims Number Header.
 Require P7.Decomp.
@@ -170,63 +167,8 @@ Definition cost_dispatch (fn : Z) (a : tree) : tree :=
 (*                              PART 2 : PROOFS                          *)
 (* ===================================================================== *)
 
-(* ---- A. readers consume -------------------------------------------------- *)
-Definition consuming {A} (rd : reader A) : Prop :=
-  forall bs x r, rd bs = Ok (x, r) -> (length r < length bs)%nat.
-Definition nonincreasing {A} (rd : reader A) : Prop :=
-  forall bs x r, rd bs = Ok (x, r) -> (length r <= length bs)%nat.
-(* a reader that never gives the resource answer *)
-Definition fuel_free {A} (rd : reader A) : Prop := forall bs, rd bs <> Err EFuel.
-
-Lemma consuming_nonincreasing {A} (rd : reader A) : consuming rd -> nonincreasing rd.
-Proof. intros H bs x r E. apply H in E. lia. Qed.
-
 Lemma zlen_nonneg {A} (l : list A) : 0 <= zlen l.
 Proof. unfold zlen. lia. Qed.
-
-Lemma dropZ_length {A} (n : Z) (l : list A) : (length (dropZ n l) <= length l)%nat.
-Proof. unfold dropZ. rewrite skipn_length. lia. Qed.
-
-Lemma takeZ_dropZ_length {A} (n : Z) (l : list A) :
-  (length (takeZ n l) + length (dropZ n l) = length l)%nat.
-Proof.
-  unfold takeZ, dropZ, zlen. rewrite firstn_length, skipn_length. lia.
-Qed.
-
-Lemma rd_byte_consumes : consuming rd_byte.
-Proof. intros [|b bs] x r H; [discriminate|]. inversion H; subst. simpl. lia. Qed.
-
-Lemma rd_byte_exact bs x r : rd_byte bs = Ok (x, r) -> length bs = S (length r).
-Proof. destruct bs as [|b bs]; intros H; [discriminate|]. inversion H; subst. reflexivity. Qed.
-
-Lemma rd_pid_nonincreasing : nonincreasing rd_pid.
-Proof. intros [|b bs] x r H; inversion H; subst; simpl; lia. Qed.
-
-Lemma rd_pid_some bs p r : rd_pid bs = Ok (Some p, r) -> length bs = S (length r).
-Proof. destruct bs as [|b bs]; intros H; inversion H; subst. reflexivity. Qed.
-
-Lemma rd_fixed_exact n bs x r : rd_fixed n bs = Ok (x, r) -> (length r + n = length bs)%nat.
-Proof.
-  unfold rd_fixed. destruct (length bs <? n)%nat eqn:E; [discriminate|].
-  intros H. inversion H; subst. rewrite skipn_length. apply Nat.ltb_ge in E. lia.
-Qed.
-
-Lemma rd_fixed_consumes n : (0 < n)%nat -> consuming (rd_fixed n).
-Proof. intros Hn bs x r H. apply rd_fixed_exact in H. lia. Qed.
-
-Lemma rd_number_consumes : consuming rd_number.
-Proof.
-  intros [|b bs] x r H; [discriminate|]. simpl in H.
-  destruct (b =? 255).
-  - apply rd_fixed_exact in H. simpl. lia.
-  - inversion H; subst. rewrite skipn_length. simpl. lia.
-Qed.
-
-Lemma rd_bytes_nonincreasing n : nonincreasing (rd_bytes n).
-Proof. intros bs x r H. inversion H; subst. apply dropZ_length. Qed.
-
-Lemma rd_bytes_exact n bs x r : rd_bytes n bs = Ok (x, r) -> (length x + length r = length bs)%nat.
-Proof. intros H. inversion H; subst. apply takeZ_dropZ_length. Qed.
 
 Ltac bind_ok H :=
   match type of H with
@@ -235,329 +177,10 @@ Ltac bind_ok H :=
       destruct e as [x|?] eqn:E; [cbn [bind] in H | discriminate H]
   end.
 
-Lemma rd_bond_consumes : consuming rd_bond.
-Proof.
-  intros bs x r H. unfold rd_bond in H.
-  bind_ok H. destruct x0 as [a r1]. bind_ok H. destruct x0 as [b r2].
-  inversion H; subst. apply rd_number_consumes in E, E0. lia.
-Qed.
-
-Lemma parse_coder_consumes : consuming parse_coder.
-Proof.
-  intros bs x r H. unfold parse_coder in H.
-  bind_ok H. destruct x0 as [b r1]. apply rd_byte_consumes in E.
-  bind_ok H. destruct x0 as [m r2].
-  assert (H2 : (length r2 <= length r1)%nat).
-  { destruct (0 <? Z.land b 15).
-    - apply rd_bytes_nonincreasing in E0. exact E0.
-    - inversion E0; subst. lia. }
-  bind_ok H. destruct x0 as [[nin nout] r3].
-  assert (H3 : (length r3 <= length r2)%nat).
-  { destruct (negb (Z.land b 16 =? 0)).
-    - bind_ok E1. destruct x0 as [a r']. bind_ok E1. destruct x0 as [b' r''].
-      inversion E1; subst. apply rd_number_consumes in E2, E3. lia.
-    - inversion E1; subst. lia. }
-  bind_ok H. destruct x0 as [pr r4].
-  assert (H4 : (length r4 <= length r3)%nat).
-  { destruct (negb (Z.land b 32 =? 0)).
-    - bind_ok E2. destruct x0 as [pl r']. bind_ok E2. destruct x0 as [p r''].
-      inversion E2; subst. apply rd_number_consumes in E3. apply rd_bytes_nonincreasing in E4. lia.
-    - inversion E2; subst. lia. }
-  inversion H; subst. lia.
-Qed.
-
-(* the bytes a coder keeps (method id, properties) were read from the input *)
-Lemma parse_coder_size bs c r :
-  parse_coder bs = Ok (c, r) -> coder_size c + zlen r <= zlen bs + 1.
-Proof.
-  intros H. unfold parse_coder in H.
-  bind_ok H. destruct x as [b r1]. apply rd_byte_exact in E.
-  bind_ok H. destruct x as [m r2].
-  assert (H2 : zlen m + zlen r2 <= zlen r1 + 1).
-  { destruct (0 <? Z.land b 15).
-    - apply rd_bytes_exact in E0. unfold zlen. lia.
-    - inversion E0; subst. unfold zlen. cbn [length]. lia. }
-  bind_ok H. destruct x as [[nin nout] r3].
-  assert (H3 : (length r3 <= length r2)%nat).
-  { destruct (negb (Z.land b 16 =? 0)).
-    - bind_ok E1. destruct x as [a r']. bind_ok E1. destruct x as [b' r''].
-      inversion E1; subst. apply rd_number_consumes in E2, E3. lia.
-    - inversion E1; subst. lia. }
-  bind_ok H. destruct x as [pr r4].
-  assert (H4 : match pr with Some p => zlen p | None => 0 end + zlen r4 <= zlen r3).
-  { destruct (negb (Z.land b 32 =? 0)).
-    - bind_ok E2. destruct x as [pl r']. bind_ok E2. destruct x as [p r''].
-      inversion E2; subst. apply rd_number_consumes in E3. apply rd_bytes_exact in E4.
-      unfold zlen. lia.
-    - inversion E2; subst. lia. }
-  inversion H; subst. unfold coder_size; cbn [c_method c_props]. unfold zlen in *. lia.
-Qed.
-
-(* --- repetition: never more elements than bytes --- *)
-Lemma rd_rep_bound {A} (rd : reader A) :
-  consuming rd ->
-  forall fuel n bs l r,
-    rd_rep fuel n rd bs = Ok (l, r) ->
-    (length l + length r <= length bs)%nat /\ zlen l = Z.max n 0.
-Proof.
-  intros Hc. induction fuel as [|f IH]; intros n bs l r H; simpl in H.
-  - destruct (n <=? 0) eqn:En; [|discriminate]. inversion H; subst. unfold zlen; cbn [length]. lia.
-  - destruct (n <=? 0) eqn:En.
-    + inversion H; subst. unfold zlen; cbn [length]. lia.
-    + bind_ok H. destruct x as [a r1]. bind_ok H. destruct x as [xs r2].
-      inversion H; subst. apply Hc in E. apply IH in E0. destruct E0 as [E1 E2].
-      unfold zlen in *. cbn [length]. lia.
-Qed.
-
-Theorem rd_many_count_le {A} (rd : reader A) n bs l r :
-  consuming rd -> rd_many n rd bs = Ok (l, r) ->
-  n <= zlen bs /\ zlen l = Z.max n 0 /\ zlen l + zlen r <= zlen bs.
-Proof.
-  intros Hc H. unfold rd_many in H. apply (rd_rep_bound rd Hc) in H. destruct H as [H1 H2].
-  unfold zlen in *. lia.
-Qed.
-
-(* the statement the property needs: a declared count larger than the remaining input fails *)
-Theorem rd_many_overcount_fails {A} (rd : reader A) n bs :
-  consuming rd -> zlen bs < n -> exists e, rd_many n rd bs = Err e.
-Proof.
-  intros Hc Hn. destruct (rd_many n rd bs) as [[l r]|e] eqn:E; [|eauto].
-  apply (rd_many_count_le rd n bs l r Hc) in E. lia.
-Qed.
-
-(* the fuel of rd_rep is no restriction: any fuel above the input length gives the same answer *)
-Lemma rd_rep_fuel_irrelevant {A} (rd : reader A) :
-  consuming rd ->
-  forall f1 f2 n bs, (length bs < f1)%nat -> (length bs < f2)%nat ->
-                     rd_rep f1 n rd bs = rd_rep f2 n rd bs.
-Proof.
-  intros Hc. induction f1 as [|f1 IH]; intros f2 n bs H1 H2; [lia|].
-  destruct f2 as [|f2]; [lia|]. simpl.
-  destruct (n <=? 0); [reflexivity|].
-  destruct (rd bs) as [[x r]|e] eqn:E; [|reflexivity]. cbn [bind].
-  apply Hc in E. rewrite (IH f2 (n - 1) r) by lia. reflexivity.
-Qed.
-
 Lemma bind_fuel {A B} (e : res A) (k : A -> res B) :
   bind e k = Err EFuel -> e = Err EFuel \/ exists x, e = Ok x /\ k x = Err EFuel.
 Proof. destruct e as [x|e']; cbn [bind]; intros H; [right; eauto | left; inversion H; reflexivity]. Qed.
 
-Lemma rd_rep_fuel_free {A} (rd : reader A) : fuel_free rd -> forall fuel n, fuel_free (rd_rep fuel n rd).
-Proof.
-  intros Hf. induction fuel as [|f IH]; intros n bs H; simpl in H.
-  - destruct (n <=? 0); discriminate.
-  - destruct (n <=? 0); [discriminate|].
-    apply bind_fuel in H. destruct H as [H|[[x r] [_ H]]]; [exact (Hf _ H)|].
-    apply bind_fuel in H. destruct H as [H|[[xs r'] [_ H]]]; [exact (IH _ _ H)|discriminate].
-Qed.
-
-Lemma rd_many_fuel_free {A} (rd : reader A) n : fuel_free rd -> fuel_free (rd_many n rd).
-Proof. intros Hf bs. apply rd_rep_fuel_free. exact Hf. Qed.
-
-Lemma rd_fixed_fuel_free n : fuel_free (rd_fixed n).
-Proof. intros bs. unfold rd_fixed. destruct (length bs <? n)%nat; discriminate. Qed.
-
-Lemma rd_number_fuel_free : fuel_free rd_number.
-Proof.
-  intros [|b bs]; simpl; [discriminate|]. destruct (b =? 255); [apply rd_fixed_fuel_free|discriminate].
-Qed.
-
-Lemma rd_byte_fuel_free : fuel_free rd_byte.
-Proof. intros [|b bs]; discriminate. Qed.
-
-Lemma rd_bytes_fuel_free n : fuel_free (rd_bytes n).
-Proof. intros bs. discriminate. Qed.
-
-Lemma rd_bond_fuel_free : fuel_free rd_bond.
-Proof.
-  intros bs H. unfold rd_bond in H.
-  apply bind_fuel in H. destruct H as [H|[[a r] [_ H]]]; [exact (rd_number_fuel_free _ H)|].
-  apply bind_fuel in H. destruct H as [H|[[b r2] [_ H]]]; [exact (rd_number_fuel_free _ H)|discriminate].
-Qed.
-
-Lemma parse_coder_fuel_free : fuel_free parse_coder.
-Proof.
-  intros bs H. unfold parse_coder in H.
-  apply bind_fuel in H. destruct H as [H|[[b r1] [_ H]]]; [exact (rd_byte_fuel_free _ H)|].
-  apply bind_fuel in H. destruct H as [H|[[m r2] [_ H]]].
-  { destruct (0 <? Z.land b 15); discriminate. }
-  apply bind_fuel in H. destruct H as [H|[[[nin nout] r3] [_ H]]].
-  { destruct (negb (Z.land b 16 =? 0)); [|discriminate].
-    apply bind_fuel in H. destruct H as [H|[[a r'] [_ H]]]; [exact (rd_number_fuel_free _ H)|].
-    apply bind_fuel in H. destruct H as [H|[[b' r''] [_ H]]]; [exact (rd_number_fuel_free _ H)|discriminate]. }
-  apply bind_fuel in H. destruct H as [H|[[pr r4] [_ H]]]; [|discriminate].
-  destruct (negb (Z.land b 32 =? 0)); [|discriminate].
-  apply bind_fuel in H. destruct H as [H|[[pl r'] [_ H]]]; [exact (rd_number_fuel_free _ H)|].
-  apply bind_fuel in H. destruct H as [H|[[p r''] [_ H]]]; discriminate.
-Qed.
-
-(* --- bit vectors --- *)
-Lemma bits_of_byte_length b k : length (bits_of_byte b k) = k.
-Proof. induction k as [|k IHk]; simpl; [reflexivity|]. rewrite app_length, IHk. simpl. lia. Qed.
-
-Lemma rd_bits_fuel_bound : forall fuel count bs l r,
-  rd_bits_fuel fuel count bs = Ok (l, r) ->
-  zlen l = Z.max count 0 /\ (length r <= length bs)%nat /\ Z.max count 0 <= 8 * (zlen bs - zlen r).
-Proof.
-  induction fuel as [|f IH]; intros count bs l r H; cbn [rd_bits_fuel] in H.
-  - destruct (count <=? 0) eqn:Ec; [|discriminate]. inversion H; subst. unfold zlen; cbn [length]. lia.
-  - destruct (count <=? 0) eqn:Ec.
-    + inversion H; subst. unfold zlen; cbn [length]. lia.
-    + destruct bs as [|b bs]; [discriminate|].
-      destruct (count <? 8) eqn:E8.
-      * injection H as <- <-. unfold zlen. rewrite bits_of_byte_length. cbn [length]. lia.
-      * bind_ok H. destruct x as [l' r']. injection H as <- <-.
-        apply IH in E. destruct E as (E1 & E2 & E3).
-        unfold zlen in *. cbn [length]. lia.
-Qed.
-
-Lemma rd_bits_bound count bs l r :
-  rd_bits count bs = Ok (l, r) ->
-  zlen l = Z.max count 0 /\ (length r <= length bs)%nat /\ count <= 8 * zlen bs.
-Proof.
-  intros H. apply rd_bits_fuel_bound in H. destruct H as (H1 & H2 & H3).
-  pose proof (zlen_nonneg r). repeat split; try assumption. lia.
-Qed.
-
-Lemma rd_bits_fuel_free count : fuel_free (rd_bits count).
-Proof.
-  intros bs. unfold rd_bits. generalize (S (length bs)) as fuel. intros fuel.
-  revert count bs. induction fuel as [|f IH]; intros count bs H; simpl in H.
-  - destruct (count <=? 0); discriminate.
-  - destruct (count <=? 0); [discriminate|]. destruct bs as [|b bs]; [discriminate|].
-    destruct (count <? 8); [discriminate|].
-    apply bind_fuel in H. destruct H as [H|[[l r] [_ H]]]; [exact (IH _ _ H)|discriminate].
-Qed.
-
-(* read_boolean: the only place where a count becomes a list without any byte being read *)
-Lemma rd_boolean_bound lim count checkall bs l r :
-  rd_boolean lim count checkall bs = Ok (l, r) ->
-  zlen l = Z.max count 0 /\ (length r <= length bs)%nat /\ (count <= lim \/ count <= 8 * zlen bs).
-Proof.
-  unfold rd_boolean. intros H. destruct checkall.
-  - destruct bs as [|b bs].
-    + destruct (lim <? count) eqn:El; [discriminate|]. inversion H; subst.
-      unfold zlen. rewrite repeat_length. cbn [length]. lia.
-    + destruct (b =? 0) eqn:Eb.
-      * apply Z.eqb_eq in Eb. subst b. apply rd_bits_bound in H. destruct H as (H1 & H2 & H3).
-        unfold zlen in *. simpl length. lia.
-      * assert (H' : (if lim <? count then Err EFuel else Ok (repeat true (Z.to_nat count), bs)) = Ok (l, r)).
-        { destruct b as [|p|p]; [discriminate Eb| exact H | exact H]. }
-        destruct (lim <? count) eqn:El; [discriminate|]. inversion H'; subst.
-        unfold zlen. rewrite repeat_length. cbn [length]. lia.
-  - apply rd_bits_bound in H. destruct H as (H1 & H2 & H3). lia.
-Qed.
-
-(* with checkall = false no resource answer is possible *)
-Lemma rd_boolean_nocheck_fuel_free lim count : fuel_free (rd_boolean lim count false).
-Proof. intros bs. unfold rd_boolean. apply rd_bits_fuel_free. Qed.
-
-(* a resource answer of read_boolean means: the count exceeds the limit *)
-Lemma rd_boolean_fuel lim count checkall bs :
-  rd_boolean lim count checkall bs = Err EFuel -> lim < count.
-Proof.
-  unfold rd_boolean. destruct checkall.
-  - destruct bs as [|b bs].
-    + destruct (lim <? count) eqn:El; [lia|discriminate].
-    + destruct (b =? 0) eqn:Eb.
-      * apply Z.eqb_eq in Eb. subst b. intros H. exfalso. exact (rd_bits_fuel_free count bs H).
-      * intros H.
-        assert (H' : (if lim <? count then Err EFuel else Ok (repeat true (Z.to_nat count), bs)) = @Err (list bool * bytes) EFuel).
-        { destruct b as [|p|p]; [discriminate Eb| exact H | exact H]. }
-        destruct (lim <? count) eqn:El; [lia|discriminate].
-  - intros H. exfalso. exact (rd_bits_fuel_free count bs H).
-Qed.
-
-(* ---- B. sections: where a declared count is backed by bytes and where it is not ---- *)
-
-(* PackInfo: the sizes are read one by one, so with a SIZE section numstreams <= input;
-   without it numstreams is free (and range(numstreams + 1) is walked at l.270) *)
-Lemma parse_packinfo_bound lim bs p r :
-  parse_packinfo lim bs = Ok (p, r) ->
-  p_numstreams p <= lim /\ (length r < length bs)%nat /\
-  (p_sizes p = [] \/ p_numstreams p <= zlen bs).
-Proof.
-  intros H. unfold parse_packinfo in H.
-  bind_ok H. destruct x as [pos r1]. apply rd_number_consumes in E.
-  bind_ok H. destruct x as [n r2]. apply rd_number_consumes in E0.
-  bind_ok H. destruct x as [pid r3]. apply rd_pid_nonincreasing in E1.
-  destruct (lim <? n) eqn:El; [discriminate|].
-  bind_ok H. destruct x as [[[[sizes defined] crcs] pid'] r4].
-  assert (Hs : (length r4 <= length r3)%nat /\ (sizes = [] \/ n <= zlen r3)).
-  { destruct pid as [pv|]; [|inversion E2; subst; split; [lia|left; reflexivity]].
-    destruct (pv =? 9) eqn:E9.
-    - apply Z.eqb_eq in E9. subst pv.
-      bind_ok E2. destruct x as [sz r5].
-      apply (rd_many_count_le rd_number n r3 sz r5 rd_number_consumes) in E3.
-      destruct E3 as (Hn & _ & Hlen).
-      bind_ok E2. destruct x as [pid2 r6]. apply rd_pid_nonincreasing in E3.
-      assert (Hr5 : (length r5 <= length r3)%nat).
-      { pose proof (zlen_nonneg sz). unfold zlen in *. lia. }
-      destruct pid2 as [pv2|]; [|inversion E2; subst; split; [lia|right; exact Hn]].
-      destruct (pv2 =? 10) eqn:E10.
-      + apply Z.eqb_eq in E10. subst pv2.
-        bind_ok E2. destruct x as [df r7]. apply rd_boolean_bound in E4. destruct E4 as (_ & Hr7 & _).
-        bind_ok E2. destruct x as [cr r8]. unfold rd_defined_crcs in E4.
-        apply (rd_many_count_le (rd_fixed 4) _ r7 cr r8 (rd_fixed_consumes 4 ltac:(lia))) in E4.
-        destruct E4 as (_ & _ & Hlen8).
-        bind_ok E2. destruct x as [pid3 r9]. apply rd_pid_nonincreasing in E4.
-        inversion E2; subst. split; [|right; exact Hn].
-        unfold zlen in *. lia.
-      + assert (E2' : Ok (sz, [], [], Some pv2, r6) = Ok (sizes, defined, crcs, pid', r4)).
-        { destruct pv2 as [|q|q]; try exact E2.
-          do 4 (destruct q as [q|q|]; try exact E2). discriminate E10. }
-        inversion E2'; subst. split; [lia|right; exact Hn].
-    - assert (E2' : Ok ([], [], [], Some pv, r3) = Ok (sizes, defined, crcs, pid', r4)).
-      { destruct pv as [|q|q]; try exact E2.
-        do 4 (destruct q as [q|q|]; try exact E2). discriminate E9. }
-      inversion E2'; subst. split; [lia|left; reflexivity]. }
-  destruct Hs as [Hr4 Hsz].
-  destruct pid' as [pv|]; [|discriminate].
-  destruct pv; try discriminate. inversion H; subst. cbn [p_numstreams p_sizes].
-  split; [lia|]. split; [lia|].
-  destruct Hsz as [Hs|Hs]; [left; exact Hs|right].
-  unfold zlen in *. lia.
-Qed.
-
-(* a resource answer of PackInfo means exactly: numstreams exceeds the limit, or it is
-   the all-defined digest vector (count = numstreams again) *)
-Lemma parse_packinfo_fuel lim bs :
-  parse_packinfo lim bs = Err EFuel ->
-  exists pos n r1 r2, rd_number bs = Ok (pos, r1) /\ rd_number r1 = Ok (n, r2) /\ lim < n.
-Proof.
-  intros H. unfold parse_packinfo in H.
-  apply bind_fuel in H. destruct H as [H|[[pos r1] [E1 H]]]; [exfalso; exact (rd_number_fuel_free _ H)|].
-  apply bind_fuel in H. destruct H as [H|[[n r2] [E2 H]]]; [exfalso; exact (rd_number_fuel_free _ H)|].
-  apply bind_fuel in H. destruct H as [H|[[pid r3] [E3 H]]].
-  { destruct r2; discriminate. }
-  exists pos, n, r1, r2. split; [exact E1|]. split; [exact E2|].
-  destruct (lim <? n) eqn:El; [lia|]. exfalso.
-  apply bind_fuel in H. destruct H as [H|[[[[[sizes defined] crcs] pid'] r4] [_ H]]].
-  2:{ destruct pid' as [pv|]; [|discriminate]. destruct pv; discriminate. }
-  destruct pid as [pv|]; [|discriminate].
-  destruct (pv =? 9) eqn:E9.
-  - apply Z.eqb_eq in E9. subst pv.
-    apply bind_fuel in H. destruct H as [H|[[sz r5] [Esz H]]].
-    { exact (rd_many_fuel_free rd_number n rd_number_fuel_free _ H). }
-    apply bind_fuel in H. destruct H as [H|[[pid2 r6] [_ H]]].
-    { destruct r5; discriminate. }
-    destruct pid2 as [pv2|]; [|discriminate].
-    destruct (pv2 =? 10) eqn:E10.
-    + apply Z.eqb_eq in E10. subst pv2.
-      apply bind_fuel in H. destruct H as [H|[[df r7] [_ H]]].
-      { apply rd_boolean_fuel in H. lia. }
-      apply bind_fuel in H. destruct H as [H|[[cr r8] [_ H]]].
-      { exact (rd_many_fuel_free (rd_fixed 4) _ (rd_fixed_fuel_free 4) _ H). }
-      apply bind_fuel in H. destruct H as [H|[[pid3 r9] [_ H]]]; [|discriminate].
-      destruct r8; discriminate.
-    + destruct pv2 as [|q|q]; try discriminate H.
-      do 4 (destruct q as [q|q|]; try discriminate H). discriminate E10.
-  - destruct pv as [|q|q]; try discriminate H.
-    do 4 (destruct q as [q|q|]; try discriminate H). discriminate E9.
-Qed.
-
-(* Folder: every count is backed by bytes; in particular totalin (the trip count of the
-   packed_indices loop) is at most the number of bonds + 1 *)
 Lemma sumZ_cons a l : sumZ (a :: l) = a + sumZ l.
 Proof.
   unfold sumZ. cbn [fold_left]. rewrite Z.add_0_l.
@@ -574,122 +197,6 @@ Lemma sumZ_app a b : sumZ (a ++ b) = sumZ a + sumZ b.
 Proof.
   induction a as [|x a IH]; [rewrite sumZ_nil; reflexivity|].
   cbn [app]. rewrite !sumZ_cons, IH. lia.
-Qed.
-
-Lemma parse_folder_consumes lim : consuming (parse_folder lim).
-Proof.
-  intros bs f r H. unfold parse_folder in H.
-  bind_ok H. destruct x as [nc r1]. apply rd_number_consumes in E.
-  bind_ok H. destruct x as [coders r2].
-  apply (rd_many_count_le parse_coder nc r1 coders r2 parse_coder_consumes) in E0.
-  bind_ok H. destruct x as [bonds r3].
-  apply (rd_many_count_le rd_bond _ r2 bonds r3 rd_bond_consumes) in E1.
-  assert (H13 : (length r3 <= length r1)%nat).
-  { destruct E0 as (_ & _ & A). destruct E1 as (_ & _ & B).
-    pose proof (zlen_nonneg coders). pose proof (zlen_nonneg bonds). unfold zlen in *. lia. }
-  destruct (_ - _ =? 1).
-  - destruct (lim <? _); [discriminate|]. inversion H; subst. lia.
-  - bind_ok H. destruct x as [packed r4].
-    apply (rd_many_count_le rd_number _ r3 packed r4 rd_number_consumes) in E2.
-    destruct E2 as (_ & _ & C). inversion H; subst.
-    pose proof (zlen_nonneg packed). unfold zlen in *. lia.
-Qed.
-
-(* the only resource answer of a folder needs totalin > lim, and totalin <= |input| + 1 *)
-Lemma parse_folder_fuel lim bs : parse_folder lim bs = Err EFuel -> lim <= zlen bs.
-Proof.
-  intros H. unfold parse_folder in H.
-  apply bind_fuel in H. destruct H as [H|[[nc r1] [E1 H]]]; [exfalso; exact (rd_number_fuel_free _ H)|].
-  apply rd_number_consumes in E1.
-  apply bind_fuel in H. destruct H as [H|[[coders r2] [E2 H]]].
-  { exfalso. exact (rd_many_fuel_free parse_coder nc parse_coder_fuel_free _ H). }
-  apply (rd_many_count_le parse_coder nc r1 coders r2 parse_coder_consumes) in E2.
-  apply bind_fuel in H. destruct H as [H|[[bonds r3] [E3 H]]].
-  { exfalso. exact (rd_many_fuel_free rd_bond _ rd_bond_fuel_free _ H). }
-  apply (rd_many_count_le rd_bond _ r2 bonds r3 rd_bond_consumes) in E3.
-  set (totalin := sumZ (map c_nin coders)) in *.
-  set (nbonds := sumZ (map c_nout coders) - 1) in *.
-  destruct (totalin - nbonds =? 1) eqn:Enp.
-  - destruct (lim <? totalin) eqn:El; [|discriminate].
-    destruct E2 as (_ & _ & A). destruct E3 as (B1 & _ & B).
-    pose proof (zlen_nonneg coders). pose proof (zlen_nonneg bonds).
-    pose proof (zlen_nonneg r2). pose proof (zlen_nonneg r3).
-    unfold zlen in *. lia.
-  - exfalso. apply bind_fuel in H. destruct H as [H|[[packed r4] [_ H]]]; [|discriminate].
-    exact (rd_many_fuel_free rd_number _ rd_number_fuel_free _ H).
-Qed.
-
-Corollary parse_folder_immune lim bs : zlen bs < lim -> parse_folder lim bs <> Err EFuel.
-Proof. intros Hl H. apply parse_folder_fuel in H. lia. Qed.
-
-(* ---- the resource answers that a few bytes reach: refutations of the memory clause ---- *)
-
-(* FilesInfo._read: numfiles dicts are allocated before another byte is read *)
-Lemma parse_files_fuel lim bs n r :
-  rd_number bs = Ok (n, r) -> lim < n -> parse_files lim bs = Err EFuel.
-Proof.
-  intros Hn Hl. unfold parse_files. rewrite Hn. cbn [bind].
-  destruct (lim <? n) eqn:E; [reflexivity|lia].
-Qed.
-
-(* 2^63 as a NUMBER *)
-Definition N63 : bytes := [255; 0; 0; 0; 0; 0; 0; 0; 128].
-Lemma rd_number_N63 r : rd_number (N63 ++ r) = Ok (2 ^ 63, r).
-Proof. reflexivity. Qed.
-
-(* HEADER, FILES_INFO, numfiles = 2^63 *)
-Definition witness_numfiles : bytes := [1; 5] ++ N63.
-Theorem numfiles_alloc_witness :
-  length witness_numfiles = 11%nat /\
-  forall lim, lim < 2 ^ 63 -> parse_header lim witness_numfiles = Err EFuel.
-Proof.
-  split; [reflexivity|]. intros lim Hl.
-  unfold witness_numfiles, parse_header. cbn [app]. unfold parse_header_body.
-  cbn [rd_pid bind].
-  rewrite (parse_files_fuel lim N63 (2 ^ 63) [] (rd_number_N63 []) Hl). reflexivity.
-Qed.
-
-(* PackInfo._read without a SIZE section: range(numstreams + 1) is walked with no byte behind it *)
-Lemma parse_packinfo_fuel_intro lim bs pos n r1 r2 :
-  rd_number bs = Ok (pos, r1) -> rd_number r1 = Ok (n, r2) -> lim < n ->
-  parse_packinfo lim bs = Err EFuel.
-Proof.
-  intros H1 H2 Hl. unfold parse_packinfo. rewrite H1. cbn [bind]. rewrite H2. cbn [bind].
-  destruct r2 as [|b r2]; cbn [rd_pid bind]; (destruct (lim <? n) eqn:E; [reflexivity|lia]).
-Qed.
-
-(* HEADER, MAIN_STREAMS_INFO, PACK_INFO, packpos = 0, numstreams = 2^63 *)
-Definition witness_numstreams : bytes := [1; 4; 6; 0] ++ N63.
-Theorem numstreams_alloc_witness :
-  length witness_numstreams = 13%nat /\
-  forall lim, lim < 2 ^ 63 -> parse_header lim witness_numstreams = Err EFuel.
-Proof.
-  split; [reflexivity|]. intros lim Hl.
-  unfold witness_numstreams, parse_header. cbn [app]. unfold parse_header_body.
-  cbn [rd_pid bind]. unfold parse_streams. cbn [rd_pid bind].
-  rewrite (parse_packinfo_fuel_intro lim (0 :: N63) 0 (2 ^ 63) N63 [] eq_refl (rd_number_N63 []) Hl).
-  reflexivity.
-Qed.
-
-(* SubstreamsInfo._read: one folder (Copy coder, unpack size 0) declared to hold 2^63 sub-streams:
-   [False] * total, [0] * total (or [True] * num_digests) with no byte behind them *)
-Definition witness_substreams : bytes :=
-  [1; 4; 7; 11; 1; 0; 1; 1; 0; 12; 0; 0; 8; 13] ++ N63.
-Theorem substreams_alloc_witness :
-  length witness_substreams = 23%nat /\
-  parse_header (2 ^ 62) witness_substreams = Err EFuel /\
-  parse_header (2 ^ 20 * zlen witness_substreams) witness_substreams = Err EFuel.
-Proof. split; [reflexivity|]. split; vm_compute; reflexivity. Qed.
-
-(* the three witnesses together: a header of at most 23 bytes on which the work of the
-   parser exceeds every bound that is linear in the input with coefficients below 2^57 *)
-Theorem alloc_by_declared_count_refuted :
-  exists bs, (length bs <= 40)%nat /\
-    forall a b, 0 <= a < 2 ^ 57 -> 0 <= b < 2 ^ 62 -> parse_header (a * zlen bs + b) bs = Err EFuel.
-Proof.
-  exists witness_numfiles. split; [cbn; lia|].
-  intros a b Ha Hb. apply (proj2 numfiles_alloc_witness).
-  change (zlen witness_numfiles) with 11. lia.
 Qed.
 
 (* ---- C1. loops whose trip count is a declared number ----------------------- *)
@@ -1203,16 +710,6 @@ Example copy_worker_example :
   Decomp.toy_worker 13 [copy_st] [7] 7 4 [1; 2; 3; 4; 5; 6; 7] 5 3 [1%nat; 2%nat] = Ok [1; 2; 3; 4; 5].
 Proof. vm_compute. reflexivity. Qed.
 
-Print Assumptions rd_many_count_le.
-Print Assumptions rd_many_overcount_fails.
-Print Assumptions rd_rep_fuel_irrelevant.
-Print Assumptions parse_packinfo_bound.
-Print Assumptions parse_packinfo_fuel.
-Print Assumptions parse_folder_fuel.
-Print Assumptions numfiles_alloc_witness.
-Print Assumptions numstreams_alloc_witness.
-Print Assumptions substreams_alloc_witness.
-Print Assumptions alloc_by_declared_count_refuted.
 Print Assumptions packpositions_superlinear.
 Print Assumptions names_steps_eof.
 Print Assumptions packed_indices_steps_worst.
